@@ -259,6 +259,7 @@ def check_scalar(ctx):
             ctx.ob(f"solve_for_scalar:{name}", "discharged", sample={"equation": str(f), "solutions": [str(s) for s in sols]})
         else:
             ctx.ob(f"solve_for_scalar:{name}", "inconclusive" if worst == "unknown" else "unencoded", worst)
+    check_nonvector(ctx)
     # apply: F uninterpreted -> congruence
     F = sp.Function("F")
     E = env()
@@ -276,6 +277,63 @@ def check_scalar(ctx):
             ctx.ob(f"apply:{name}", "discharged", nontrivial=False)
         else:
             ctx.violation(f"C16:apply:{name}", f"apply({eqn}, F) = {r}", REPLAY_SCALAR.format(name="apply:" + name))
+
+
+def nonvector_cases():
+    """expressions that are NOT vector expressions (division by a vector, powers of vectors, scalar + vector, functions of vectors):
+    a request to rearrange them must be refused"""
+    E = env()
+    V = E["V"]
+    a, b, c = E["vs"]["a"], E["vs"]["b"], E["vs"]["c"]
+    x, y = sp.symbols("qx qy", real=True)
+    return c, [("b/a", b / a), ("b/(2 a)", b / (2 * a)), ("b/(a + c)", b / (a + c)), ("b/(x a + y c)", b / (x * a + y * c)),
+               ("b/cross(a, c)", b / V.VectorCross(a, c)), ("b/cross(a, c)^2", b / V.VectorCross(a, c)**2), ("b/a^2", b / a**2), ("a^2", a**2), ("a^x", a**x),
+               ("scalar x", x), ("dot(a, b)", V.VectorDot(a, b)), ("norm(a)", V.VectorNorm(a)), ("sin(a)", sp.sin(a)),
+               # legitimate scalar denominators, for contrast: must be ACCEPTED
+               ("b/norm(a) [vector]", b / V.VectorNorm(a)), ("b/dot(a, c) [vector]", b / V.VectorDot(a, c))]
+
+
+REPLAY_NONVECTOR = r'''
+import sys
+import sympy as sp
+from checks import c16
+from symplyphysics.core.experimental.solvers import solve_for_vector
+unknown, cases = c16.nonvector_cases()
+bad = False
+for nm, ex in cases:
+    legit = nm.endswith("[vector]")
+    for form in (ex + unknown, sp.Eq(ex, unknown, evaluate=False)):
+        try:
+            r = solve_for_vector(form, unknown); got = f"answered {r}"; refused = False
+        except (TypeError, ValueError) as e:
+            got = f"refused ({type(e).__name__})"; refused = True
+        if refused == legit: bad = True; print(nm, "->", got, " EXPECTED", "an answer" if legit else "a refusal")
+if bad:
+    print("REPRODUCED"); sys.exit(1)
+'''
+
+
+def check_nonvector(ctx):
+    from symplyphysics.core.experimental.solvers import solve_for_vector
+    unknown, cases = nonvector_cases()
+    for nm, ex in cases:
+        legit = nm.endswith("[vector]")
+        for fn, form in (("expression", ex + unknown), ("equation", sp.Eq(ex, unknown, evaluate=False))):
+            try:
+                r = solve_for_vector(form, unknown)
+                refused = False
+                got = f"answered {r}"
+            except (TypeError, ValueError) as e:
+                refused = True
+                got = f"refused ({type(e).__name__})"
+            except Exception as e:
+                refused = None
+                got = f"raised {type(e).__name__}: {e}"
+            name = f"non-vector expression is refused:{nm}:{fn}"
+            if refused is not None and refused != legit:
+                ctx.ob(name, "discharged", nontrivial=False)
+            else:
+                ctx.violation(f"C16:nonvector:{nm}", f"solve_for_vector on {nm} + c ({fn} form): {got}; " + ("this IS a vector expression" if legit else "not a vector expression: must be refused"), REPLAY_NONVECTOR)
 
 
 REPLAY_SCALAR = r'''
